@@ -112,7 +112,7 @@ def space(name):
         sp["kernel"] = kernels() + ["precomputed", "callable:linear"]
         sp["kernel_params"] = [None, "gamma"]
     if fl.accepts(cls, "base_kernel"):
-        sp["base_kernel"] = kernels() + ["callable:linear"]
+        sp["base_kernel"] = kernels() + ["callable:linear", "callable:rbf2d", "callable:cdist"]
         sp["base_kernel_params"] = [None, "gamma"]
     if fl.accepts(cls, "metric"):
         sp["metric"] = list(WASS_METRICS)
@@ -271,7 +271,13 @@ def precomputed_for(params, X):
 
 def resolve_callable(name, key, label):
     """the function behind a 'callable:…' label, with the calling convention of the place that receives it"""
-    if key == "base_kernel":                      # KernelRIM: kernel(X, self.input_data_)
+    if key == "base_kernel":                      # KernelRIM: kernel(X, self.input_data_) on two sample MATRICES
+        if label == "callable:rbf2d":             # a library function that insists on 2-d inputs (as most user kernels do)
+            from sklearn.metrics.pairwise import rbf_kernel
+            return rbf_kernel
+        if label == "callable:cdist":
+            from scipy.spatial.distance import cdist
+            return lambda A, B: np.exp(-cdist(np.asarray(A, dtype=float), np.asarray(B, dtype=float), "sqeuclidean") / np.asarray(A).shape[1])
         return lambda A, B: np.asarray(A) @ np.asarray(B).T
     if key == "kernel" and name == "Kauri":       # pairwise_kernels(X, metric=callable): called on pairs of rows
         return lambda a, b: float(np.dot(a, b))
